@@ -36,6 +36,11 @@ pub const LOCAL_STATEMENTS: &[&str] = &[
     "local a = m.k",
     "local a: number = 1",
     "const a = 1",
+    // declarations of both kinds followed by an assignment (a const binding cannot be assigned)
+    "const b = 2",
+    "const a, b = 1, 2",
+    "b = (b or 0) + 1",
+    "a = 5",
     // a nested function whose parameter shadows the name, before a real read of it
     "local b = {(function(a) return a end)(5), a}",
     "local b = {function(a) return a end, a}",
@@ -57,10 +62,18 @@ pub fn local_sequences(n: usize) -> Vec<String> {
         }
         out
     }
-    seqs(n)
-        .into_iter()
-        .map(|s| prog(&format!("local function wrap(...)\n{}\nreturn a, b, x, type(c) == \"function\" and c()\nend\nreturn wrap(7, 8)", s)))
-        .collect()
+    let mut out = Vec::new();
+    for s in seqs(n) {
+        out.push(prog(&format!("local function wrap(...)\n{}\nreturn a, b, x, type(c) == \"function\" and c()\nend\nreturn wrap(7, 8)", s)));
+        // the same names assigned afterwards: a declaration must not have become constant
+        if !s.contains("const a") {
+            out.push(prog(&format!("local function wrap(...)\n{}\na = a\nreturn a, b, x, type(c) == \"function\" and c()\nend\nreturn wrap(7, 8)", s)));
+        }
+        if !(s.contains("const b") || s.contains("const a, b")) {
+            out.push(prog(&format!("local function wrap(...)\n{}\nb = b\nreturn a, b, x, type(c) == \"function\" and c()\nend\nreturn wrap(7, 8)", s)));
+        }
+    }
+    out
 }
 
 pub fn function_programs() -> Vec<String> {
